@@ -605,11 +605,12 @@ class Executor(object):
         if exc is not None:
             scope['exc'] = exc
         scope['_yi'] = getattr(self, 'yield_index', VInt(0))
+        scope['_n'] = scope['_yi']
         return scope
 
     def check_post(self, contract, result):
         scope = self.spec_scope(self.entry_params, result, None)
-        if contract.returns is not None:
+        if contract.returns is not None and not isinstance(contract.returns, dict):
             self.check_result_type(contract, result)
         for target, expr in contract.ghost_exit:
             # ghost statement at the normal exit (history variables): G.<field> := expr
@@ -1388,6 +1389,10 @@ class Executor(object):
         scope['_yi'] = self.yield_index
         for cl in c.on_yield:
             self.oblige(cl.label, self.eval_clause(cl, scope), self.props_of(cl, c), 'yield', expr=cl.expr)
+        scope['_i'] = self.yield_index
+        for n, text in enumerate(c.gen.get('facts', [])):
+            f = truth(self.eval_clause_value(text, scope))
+            self.oblige('yield-fact%d' % n, f, set(c.props), 'yield', expr=text)
         self.yield_index = VInt(self.yield_index.term + 1)
         # the consumer runs here: it may let time pass (and whatever the contract lists in yield_havoc)
         locs = []
@@ -1881,8 +1886,12 @@ class Executor(object):
                 event['post'] = self.capture_modified(contract, bound)
                 raise RaiseSig(exc)
         result = None
-        if contract.returns is not None and contract.returns != 'none':
-            result = self.fresh(contract.returns, contract.key.split('.')[-1] + '.ret')
+        rtype = contract.returns
+        if isinstance(rtype, dict):
+            sel = truth(bound[rtype['by']])
+            rtype = rtype[True] if self.branch(sel) else rtype[False]
+        if rtype is not None and rtype != 'none':
+            result = self.fresh(rtype, contract.key.split('.')[-1] + '.ret')
         else:
             result = NONE
         self.apply_effects(contract, bound, old, old_bound, list(contract.ensures) + list(contract.defines), result, None)
